@@ -65,6 +65,8 @@ type SV struct {
 	bnd []SV          // closure bindings
 	srt string        // SMT sort for spec-only values (typ == nil)
 	dyn *SV           // for interface values built by MakeInterface: the boxed concrete value
+	rngMap  *SV        // map iterator (ssa.Range): the ranged map
+	rngType *types.Map
 }
 
 type State struct {
@@ -111,6 +113,8 @@ type VC struct {
 	heapSort map[string]string // heap name -> element sort (heap is Array Int elem) or full sort for ghosts
 	heapElem map[string]types.Type
 	heapRows map[string]bool
+	appSeq   int
+	curApp   int // id of the contract application being evaluated (0: the function's own contract)
 	heapMapKey map[string]string // map-value heaps: SMT sort of the key
 	ghost    map[string]bool
 	counters map[string]int
@@ -317,6 +321,12 @@ const basePrelude = `(declare-datatypes ((Slice 0)) (((mk_slice (s_ref Int) (s_o
 (declare-fun bytes_at (Bytes Int) Int)
 (assert (forall ((s Bytes)) (! (and (>= (bytes_len s) 0) (<= (bytes_len s) 281474976710656)) :pattern ((bytes_len s)))))
 (assert (= (bytes_len bytes_nil) 0))
+(declare-fun bytes_lt (Bytes Bytes) Bool)
+(assert (forall ((a Bytes) (b Bytes)) (! (=> (bytes_lt a b) (not (bytes_lt b a))) :pattern ((bytes_lt a b)))))
+(assert (forall ((a Bytes)) (! (not (bytes_lt a bytes_nil)) :pattern ((bytes_lt a bytes_nil)))))
+(assert (forall ((a Bytes) (b Bytes) (c Bytes)) (! (=> (and (bytes_lt a b) (bytes_lt b c)) (bytes_lt a c)) :pattern ((bytes_lt a b) (bytes_lt b c)))))
+(assert (forall ((a Bytes) (b Bytes) (c Bytes)) (! (=> (and (not (bytes_lt a b)) (not (bytes_lt b c))) (not (bytes_lt a c))) :pattern ((bytes_lt a b) (bytes_lt b c)))))
+(define-fun bytes_cmp ((a Bytes) (b Bytes)) Int (ite (bytes_lt a b) (- 1) (ite (bytes_lt b a) 1 0)))
 (declare-sort Coins 0)
 (declare-fun coins_amt (Coins Str) Int)
 (declare-fun coins_nil () Coins)
